@@ -1938,6 +1938,21 @@ fn nested_scenario(m: &MDef, thorough: bool) -> Scenario {
                 let mut q = q_of(p, vec![fld(NAME), sub(rn, None, sq.clone())]);
                 q.nullable = vec![rn.to_string()];
                 add(&format!("{}|sub-order+first+skip", kind), q);
+                // the same limits under a REQUIRED reference: the parent is kept only when the nested selection,
+                // limits included, returns something
+                if rn == "qs" {
+                    add(&format!("{}|sub-order+first+skip|required", kind), q_of(p, vec![fld(NAME), sub(rn, None, sq.clone())]));
+                    let mut s2 = qn(vec![fld(NAME)]);
+                    s2.order = vec![("name".into(), asc)];
+                    s2.skip = Some(Lim { n: 1, var: false });
+                    add(&format!("{}|sub-order+skip|required", kind), q_of(p, vec![fld(NAME), sub(rn, None, s2.clone())]));
+                    s2.skip = Some(Lim { n: 2, var: true });
+                    add(&format!("{}|sub-order+skip2|required", kind), q_of(p, vec![fld(NAME), sub(rn, None, s2.clone())]));
+                    let mut s3 = qn(vec![fld(NAME)]);
+                    s3.order = vec![("name".into(), asc)];
+                    s3.first = Some(Lim { n: 1, var: false });
+                    add(&format!("{}|sub-order+first|required", kind), q_of(p, vec![fld(NAME), sub(rn, None, s3)]));
+                }
                 let mut sq = qn(vec![fld(NAME), sys("id")]);
                 sq.order = vec![("n".into(), asc), ("name".into(), true)];
                 add(&format!("{}|sub-order-nullable-key", kind), q_of(p, vec![fld(NAME), sub(rn, None, sq)]));
